@@ -5,7 +5,7 @@ import re
 
 import vlib
 
-PROPS = ['Rangers.Props.C01', 'Rangers.Props.C01B', 'Rangers.Props.C01C', 'Rangers.Props.C01D', 'Rangers.Props.C01E', 'Rangers.Props.C01Sites']
+PROPS = ['Rangers.Props.C01', 'Rangers.Props.C01B', 'Rangers.Props.C01C', 'Rangers.Props.C01D', 'Rangers.Props.C01E', 'Rangers.Props.C01F', 'Rangers.Props.C01Sites']
 DRIVERS = ['C01']
 META = dict(
     level='proof',
@@ -108,7 +108,7 @@ def _search_run(ctx, n, cases):
     cwd = ctx.scratch('c01search')
     env = dict(VERIF_SEED=str(ctx.seed), VERIF_TIER=ctx.tier, VERIF_CORPUS=os.path.join(vlib.VERIF, 'corpus', ctx.pid),
                GOMEMLIMIT='8GiB')
-    rc, so, se = vlib.run([binp, 'mode=search', 'n=%d' % n, 'cases=%d' % cases, 'hist=%d' % (45 if ctx.thorough() else 9)], cwd=cwd, env=env,
+    rc, so, se = vlib.run([binp, 'mode=search', 'n=%d' % n, 'cases=%d' % cases, 'hist=%d' % (30 if ctx.thorough() else 9)], cwd=cwd, env=env,
                           timeout=3000 if ctx.thorough() else 1500)
     import shutil
     shutil.rmtree(cwd, ignore_errors=True)
@@ -162,7 +162,7 @@ def _race_run(ctx):
 def search(ctx, hints):
     broken = bool(hints.get('broken'))
     if ctx.thorough():
-        n, cases = 1024, 400
+        n, cases = 1024, 280
     else:
         n, cases = 64, (700 if broken else 300)
     res, err = _search_run(ctx, n, cases)
